@@ -1017,6 +1017,8 @@ impl BufferParser for Parser {
                         return Ok(CallbackAction::Update);
                     }
                     'N' => {
+                        // 'N' is a final byte: the sequence ends here, with or without ansi music
+                        self.state = EngineState::Default;
                         if matches!(self.ansi_music, MusicOption::Banana)
                             || matches!(self.ansi_music, MusicOption::Both)
                         {
@@ -1028,6 +1030,8 @@ impl BufferParser for Parser {
                     }
 
                     '|' => {
+                        // '|' is a final byte: the sequence ends here, with or without ansi music
+                        self.state = EngineState::Default;
                         if !matches!(self.ansi_music, MusicOption::Off) {
                             self.cur_music = Some(AnsiMusic::default());
                             self.dotted_note = false;
